@@ -970,6 +970,13 @@ package machine
 //@   requires nn:  (forall c context.Context, i int :: has(sm.whenQueryCtx, c) && 0 <= i && i < len(sm.whenQueryCtx[c]) ==> sm.whenQueryCtx[c][i] != nil)
 //@   assigns  sm.whenQueryCtx, sm.whenQuery
 
+//@ pred WhenClosed(sm *Subscriptions) := forall s string, i int :: has(sm.when, s) && 0 <= i && i < len(sm.when[s]) ==> closed(sm.when[s][i].Ch)
+//@ pred WhenTimeClosed(sm *Subscriptions) := forall s string, i int :: has(sm.whenTime, s) && 0 <= i && i < len(sm.whenTime[s]) ==> closed(sm.whenTime[s][i].Ch)
+//@ pred WhenArgsClosed(sm *Subscriptions) := forall s string, i int :: has(sm.whenArgs, s) && 0 <= i && i < len(sm.whenArgs[s]) ==> closed(sm.whenArgs[s][i].ch)
+//@ pred QueueEndsClosed(sm *Subscriptions, n int) := forall i int :: 0 <= i && i < n ==> closed(sm.whenQueueEnds[i].ch)
+//@ pred QueueClosed(sm *Subscriptions, n int) := forall i int :: 0 <= i && i < n ==> closed(sm.whenQueue[i].ch)
+//@ pred QueryClosed(sm *Subscriptions, n int) := forall i int :: 0 <= i && i < n ==> closed(sm.whenQuery[i].ch)
+
 // dispose: every waiter is released.
 //@ func (sm *Subscriptions) dispose()
 //@   props C13 C06
@@ -987,3 +994,12 @@ package machine
 //@   ensures  queueEnds: forall i int :: 0 <= i && i < len(sm.whenQueueEnds) ==> closed(sm.whenQueueEnds[i].ch)
 //@   ensures  queue:    forall i int :: 0 <= i && i < len(sm.whenQueue) ==> closed(sm.whenQueue[i].ch)
 //@   ensures  query:    forall i int :: 0 <= i && i < len(sm.whenQuery) ==> closed(sm.whenQuery[i].ch)
+//@   loop 2 invariant done: forall s string, i int :: visited2[s] && 0 <= i && i < len(sm.when[s]) ==> closed(sm.when[s][i].Ch)
+//@   loop 3 invariant done: (forall s string, i int :: visited2[s] && 0 <= i && i < len(sm.when[s]) ==> closed(sm.when[s][i].Ch)) && (forall j int :: 0 <= j && j < idx3 ==> closed(sm.when[state][j].Ch))
+//@   loop 4 invariant done: WhenClosed(sm) && (forall s string, i int :: visited4[s] && 0 <= i && i < len(sm.whenTime[s]) ==> closed(sm.whenTime[s][i].Ch))
+//@   loop 5 invariant done: WhenClosed(sm) && (forall s string, i int :: visited4[s] && 0 <= i && i < len(sm.whenTime[s]) ==> closed(sm.whenTime[s][i].Ch)) && (forall j int :: 0 <= j && j < idx5 ==> closed(sm.whenTime[state][j].Ch))
+//@   loop 6 invariant done: WhenClosed(sm) && WhenTimeClosed(sm) && (forall s string, i int :: visited6[s] && 0 <= i && i < len(sm.whenArgs[s]) ==> closed(sm.whenArgs[s][i].ch))
+//@   loop 7 invariant done: WhenClosed(sm) && WhenTimeClosed(sm) && (forall s string, i int :: visited6[s] && 0 <= i && i < len(sm.whenArgs[s]) ==> closed(sm.whenArgs[s][i].ch)) && (forall j int :: 0 <= j && j < idx7 ==> closed(sm.whenArgs[state][j].ch))
+//@   loop 8 invariant done: WhenClosed(sm) && WhenTimeClosed(sm) && WhenArgsClosed(sm) && QueueEndsClosed(sm, idx8)
+//@   loop 9 invariant done: WhenClosed(sm) && WhenTimeClosed(sm) && WhenArgsClosed(sm) && QueueEndsClosed(sm, len(sm.whenQueueEnds)) && QueueClosed(sm, idx9)
+//@   loop 10 invariant done: WhenClosed(sm) && WhenTimeClosed(sm) && WhenArgsClosed(sm) && QueueEndsClosed(sm, len(sm.whenQueueEnds)) && QueueClosed(sm, len(sm.whenQueue)) && QueryClosed(sm, idx10)
